@@ -1310,3 +1310,140 @@ Section EIdle.
     - intros q. rewrite M7. intro H. apply Pg. apply (e_exited _ _ _ R q H).
   Qed.
 End EIdle.
+
+(** a thread is spawned; with [pp = true] it is the worker of the new pipe [q] *)
+Section ESpawn.
+  Variables (st st' : wstate) (m : m14) (t : tid) (q : Z) (pp : bool) (x0 bm0 : Z).
+  Hypothesis R : ERel ENone st m.
+  Hypothesis X : XInv st.
+  Hypothesis Hn : nthr st' = S (nthr st).
+  Hypothesis Ho : forall u, u <> nthr st -> thr st' u = thr st u.
+  Hypothesis Hp0 : tcont (thr st (nthr st)) = [] /\ tfinal (thr st (nthr st)) = [].
+  Hypothesis Hnc : tcont (thr st' (nthr st)) = [].
+  Hypothesis Hnf : tfinal (thr st' (nthr st)) = if pp then [ILock MDL (LPush x0 bm0 (HPipe q))] else [].
+  Hypothesis Hnp : tpipe (thr st' (nthr st)) = q.
+  Hypothesis Hncu : tcur (thr st' (nthr st)) = None.
+  Hypothesis Hq : 0 <= q <-> pp = true.
+  Hypothesis Ht : (t < nthr st)%nat.
+  Hypothesis Htc : tcur (thr st t) = Some CSpawn \/ tcur (thr st t) = Some (CPNew q).
+  Hypothesis Hc : tcont (thr st t) = [].
+  Hypothesis Hdl : dl st' = dl st.
+  Hypothesis Hold : forall x h, slab_get (sl st) x = Some h -> slab_get (sl st') x = Some h.
+  Hypothesis Hnewp : forall x q', slab_get (sl st') x = Some (HPipe q') -> slab_get (sl st) x = Some (HPipe q') \/ (pp = true /\ x = x0 /\ q' = q).
+  Hypothesis Hpo : forall q', (pp = false \/ q' <> q) -> pps st' q' = pps st q'.
+  Hypothesis Hpq : pp = true -> pexists (pps st q) = false /\ pexists (pps st' q) = true /\ precvq (pps st' q) = [] /\ ppanic (pps st' q) = false /\
+                                slab_get (sl st') x0 = Some (HPipe q).
+
+  Let u0 := nthr st.
+  Ltac ppcase Ep := destruct (Bool.bool_dec pp true) as [Ep|Ep]; [|apply not_true_is_false in Ep].
+
+  Lemma esp_wkr : forall u, wkr st' u <-> (u = u0 /\ pp = true) \/ (u <> u0 /\ wkr st u).
+  Proof.
+    intro u. unfold wkr. rewrite Hn. destruct (Nat.eq_dec u u0) as [->|E].
+    - unfold u0. rewrite Hnp, Hq. split; [intros [_ H]; left; auto|intros [[_ H]|[H _]]; [split; [lia|exact H]|exfalso; apply H; reflexivity]].
+    - rewrite (Ho u E). split; [intros [A B]; right; split; [exact E|split; [unfold u0 in E; lia|exact B]]|intros [[A _]|[_ [A B]]]; [contradiction|split; [lia|exact B]]].
+  Qed.
+
+  Lemma esp_pps : forall q', pexists (pps st q') = true -> pps st' q' = pps st q'.
+  Proof.
+    intros q' H. apply Hpo. ppcase Ep; [right|left; exact Ep]. intro E. subst q'. destruct (Hpq Ep) as [A _]. rewrite A in H. discriminate H.
+  Qed.
+
+  Lemma e_spawn : ERel (ESp t q) st' m.
+  Proof.
+    assert (Tne : t <> u0) by (unfold u0; lia).
+    assert (Mne : main <> u0) by (unfold u0, main; destruct R as [_ _ _ _ _ _ _ _ _ _ _ _ _ _ _ _ _ _ _ _ _ _ _]; lia).
+    assert (Mc : mcont st' = mcont st) by (unfold mcont; rewrite (Ho main Mne); reflexivity).
+    assert (Pl : pipeline st' = pipeline st) by (unfold pipeline; rewrite Hdl; fold (mcont st') (mcont st); rewrite Mc; reflexivity).
+    assert (Nb : b_nthr (m14_b m) = u0) by (apply (e_nthr _ _ _ R)).
+    assert (Wold : forall u, wkr st u -> u <> u0) by (intros u [A _]; unfold u0; lia).
+    assert (Tnew : tpushes (thr st' u0) = if pp then [(x0, HPipe q)] else []).
+    { unfold tpushes, u0. rewrite Hnc, Hnf. ppcase Ep; rewrite Ep; reflexivity. }
+    assert (NoQ : pp = true -> (forall x, slab_get (sl st) x <> Some (HPipe q)) /\ on_pipe q (m14_lsend m) = [] /\ on_pipe q (m14_fwd m) = [] /\
+                  memZ q (m14_term m) = false /\ memZ q (m14_panic m) = false /\ memZ q (m14_exited m) = false /\ (forall x, ~ In (q, x) (m14_lsdone m))).
+    { intro Ep. destruct (Hpq Ep) as [A _]. destruct (e_noex _ _ _ R q A) as [B1 [B2 [B3 [B4 [B5 [B6 [B7 [B8 B9]]]]]]]]. auto 10. }
+    assert (Pg : forall q', prog14 st m q' -> prog14 st' m q').
+    { intros q' [A|[[x [A B]]|[A|A]]]; [left; exact A|right; left; exists x; rewrite Pl; split; [exact A|apply Hold; exact B]
+        |right; right; left; rewrite Mc; exact A|right; right; right; rewrite Mc; exact A]. }
+    assert (NoE : forall q', pexists (pps st q') = true \/ pp = false \/ q' <> q -> (forall x, slab_get (sl st) x <> Some (HPipe q')) -> forall x, slab_get (sl st') x <> Some (HPipe q')).
+    { intros q' Hq' H x G. destruct (Hnewp x q' G) as [G0|[Ep [_ Eq]]]; [exact (H x G0)|]. subst q'.
+      destruct Hq' as [Hq'|[Hq'|Hq']]; [destruct (Hpq Ep) as [A _]; rewrite A in Hq'; discriminate Hq'|rewrite Ep in Hq'; discriminate Hq'|apply Hq'; reflexivity]. }
+    assert (ExIns : forall q', ((exists m0 ms tm, In (IUnlock m0 (UPqFwd q' ms tm)) (mcont st)) \/ (exists m0 d, In (ILock m0 (LPqHandler q' d)) (mcont st))) ->
+                    pexists (pps st q') = true) by (apply (e_ins _ _ _ R)).
+    constructor.
+    - apply (e_bad _ _ _ R).
+    - rewrite Nb, Hn. reflexivity.
+    - intros t0 q0 E. inversion E; subst t0 q0. rewrite Nb. unfold u0. split; [exact Hnp|]. rewrite (Ho t Tne). split; [exact Htc|exact Hc].
+    - intros u q'. rewrite (e_owner _ _ _ R u q'), Nb. split; intros [A B]; (split; [exact A|]); (rewrite (Ho u) in * by (unfold u0 in A; lia)); exact B.
+    - intros u u' Hu Hu' E. apply esp_wkr in Hu. apply esp_wkr in Hu'.
+      destruct Hu as [[-> Ep]|[Nu Hu]]; destruct Hu' as [[-> Ep']|[Nu' Hu']]; [reflexivity| | |].
+      + exfalso. unfold u0 in E. rewrite Hnp, (Ho u' Nu') in E. destruct (Hpq Ep) as [A _]. rewrite E, (e_wex _ _ _ R u' Hu') in A. discriminate A.
+      + exfalso. unfold u0 in E. rewrite Hnp, (Ho u Nu) in E. destruct (Hpq Ep') as [A _]. rewrite <- E, (e_wex _ _ _ R u Hu) in A. discriminate A.
+      + rewrite (Ho u Nu), (Ho u' Nu') in E. apply (e_wuniq _ _ _ R u u' Hu Hu' E).
+    - intros u Hu. apply esp_wkr in Hu. destruct Hu as [[-> Ep]|[Nu Hu]].
+      + unfold u0. rewrite Hnp. apply (Hpq Ep).
+      + rewrite (Ho u Nu). pose proof (e_wex _ _ _ R u Hu) as A. rewrite (esp_pps _ A). exact A.
+    - intros q' H. ppcase Ep.
+      + destruct (Z.eq_dec q' q) as [->|Nq].
+        * exists u0. split; [apply esp_wkr; left; auto|exact Hnp].
+        * rewrite (Hpo q' (or_intror Nq)) in H. destruct (e_exw _ _ _ R q' H) as [u [A B]]. exists u. split; [apply esp_wkr; right; split; [apply Wold; exact A|exact A]|rewrite (Ho u (Wold u A)); exact B].
+      + rewrite (Hpo q' (or_introl Ep)) in H. destruct (e_exw _ _ _ R q' H) as [u [A B]]. exists u. split; [apply esp_wkr; right; split; [apply Wold; exact A|exact A]|rewrite (Ho u (Wold u A)); exact B].
+    - intros q' H.
+      assert (Hc0 : pp = false \/ q' <> q).
+      { ppcase Ep; [right|left; exact Ep]. intro E. subst q'. destruct (Hpq Ep) as [_ [A _]]. rewrite A in H. discriminate H. }
+      rewrite (Hpo q' Hc0) in *. destruct (e_noex _ _ _ R q' H) as [E1 E2]. split; [|exact E2]. apply NoE; [right; exact Hc0|exact E1].
+    - intros q' H. rewrite Mc in H. pose proof (ExIns q' H) as A. rewrite (esp_pps _ A). exact A.
+    - intros x y q' G1 G2. destruct (Hnewp x q' G1) as [A|[Ep [E1 E2]]]; destruct (Hnewp y q' G2) as [B|[Ep' [F1 F2]]].
+      + apply (e_uniq _ _ _ R x y q' A B).
+      + exfalso. subst q'. destruct (NoQ Ep') as [Z0 _]. exact (Z0 x A).
+      + exfalso. subst q'. destruct (NoQ Ep) as [Z0 _]. exact (Z0 y B).
+      + subst. reflexivity.
+    - intros u Hu. cbn zeta. apply esp_wkr in Hu. rewrite Mc. destruct Hu as [[-> Ep]|[Nu Hu]].
+      + unfold u0. rewrite Hnp, Hnc. destruct (NoQ Ep) as [_ [A [B _]]]. destruct (Hpq Ep) as [Ex [_ [C _]]]. rewrite A, B, C. cbn [lpend flat_map app].
+        destruct (ufw q (mcont st)) eqn:Eu; [reflexivity|exfalso].
+        assert (Z0 : pexists (pps st q) = true).
+        { apply ExIns. left. clear - Eu. induction (mcont st) as [|j k IH]; [discriminate Eu|].
+          rewrite (ufw_cons q j k) in Eu. destruct (ufw q [j]) eqn:Ej.
+          - destruct (IH Eu) as [m0 [ms [tm H]]]. exists m0, ms, tm. right. exact H.
+          - destruct j; try discriminate Ej. destruct a; try discriminate Ej. cbn in Ej. destruct (Z.eqb_spec p q) as [->|]; [|discriminate Ej].
+            exists m, msgs, term. left. reflexivity. }
+        rewrite Z0 in Ex. discriminate Ex.
+      + rewrite (Ho u Nu). pose proof (e_wex _ _ _ R u Hu) as A. rewrite (esp_pps _ A). apply (e_ls _ _ _ R u Hu).
+    - intros u x Hu Hcu. apply esp_wkr in Hu. destruct Hu as [[-> Ep]|[Nu Hu]]; [unfold u0 in Hcu; rewrite Hncu in Hcu; discriminate Hcu|].
+      rewrite (Ho u Nu) in *. apply (e_lscur _ _ _ R u x Hu Hcu).
+    - intros q' x H. rewrite Mc. assert (Hc0 : pp = false \/ q' <> q).
+      { ppcase Ep; [right|left; exact Ep]. intro E. subst q'. destruct (NoQ Ep) as [_ [_ [_ [_ [_ [_ Z0]]]]]]. exact (Z0 x H). }
+      rewrite (Hpo q' Hc0). apply (e_lsdone _ _ _ R q' x H).
+    - intros q' H. assert (Hc0 : pp = false \/ q' <> q).
+      { ppcase Ep; [right|left; exact Ep]. intro E. subst q'. destruct (NoQ Ep) as [_ [_ [_ [Z0 _]]]]. rewrite Z0 in H. discriminate H. }
+      destruct (e_term _ _ _ R q' H) as [A [B [C [D E]]]]. rewrite Mc, (Hpo q' Hc0).
+      split; [apply NoE; [right; exact Hc0|exact A]|]. split; [|auto].
+      intros u x Hin. destruct (Nat.eq_dec u u0) as [->|Nu]; [|rewrite (Ho u Nu) in Hin; exact (B u x Hin)].
+      rewrite Tnew in Hin. ppcase Ep; rewrite Ep in Hin; [|destruct Hin]. destruct Hin as [Hin|[]]. injection Hin as _ Hin. destruct Hc0 as [Hc0|Hc0]; [rewrite Ep in Hc0; discriminate Hc0|apply Hc0; symmetry; exact Hin].
+    - intros m0 q' Hin. rewrite Mc in Hin. destruct (e_hdel _ _ _ R m0 q' Hin) as [A [B C]].
+      assert (Ex : pexists (pps st q') = true) by (apply ExIns; right; exists m0, true; exact Hin).
+      split; [exact A|]. split; [apply NoE; [left; exact Ex|exact B]|].
+      intros u x Hx. destruct (Nat.eq_dec u u0) as [->|Nu]; [|rewrite (Ho u Nu) in Hx; exact (C u x Hx)].
+      rewrite Tnew in Hx. ppcase Ep; rewrite Ep in Hx; [|destruct Hx]. destruct Hx as [Hx|[]]. injection Hx as _ Hx. rewrite <- Hx in Ex. destruct (Hpq Ep) as [Z0 _]. rewrite Z0 in Ex. discriminate Ex.
+    - intros q' Hin. rewrite Mc in Hin. destruct (e_hterm _ _ _ R q' Hin) as [A [B C]].
+      assert (Ex : pexists (pps st q') = true) by (apply ExIns; left; destruct Hin as [m0 [ms [b H]]]; exists m0, ms, (Some b); exact H).
+      rewrite (esp_pps _ Ex). split; [apply NoE; [left; exact Ex|exact A]|]. split; [|exact C].
+      intros u x Hx. destruct (Nat.eq_dec u u0) as [->|Nu]; [|rewrite (Ho u Nu) in Hx; exact (B u x Hx)].
+      rewrite Tnew in Hx. ppcase Ep; rewrite Ep in Hx; [|destruct Hx]. destruct Hx as [Hx|[]]. injection Hx as _ Hx. rewrite <- Hx in Ex. destruct (Hpq Ep) as [Z0 _]. rewrite Z0 in Ex. discriminate Ex.
+    - rewrite Mc. apply (e_hpos _ _ _ R).
+    - intros u j Hu Hj. destruct (Nat.eq_dec u u0) as [->|Nu]; [unfold u0 in Hj; rewrite Hnc in Hj; destruct Hj|rewrite (Ho u Nu) in Hj; apply (e_hmain _ _ _ R u j Hu Hj)].
+    - intros u Hu. cbn zeta. apply esp_wkr in Hu. rewrite Mc. destruct Hu as [[-> Ep]|[Nu Hu]].
+      + unfold u0. rewrite Hnp, Hnc, Hnf, Ep. destruct (NoQ Ep) as [_ [_ [_ [_ [Z0 _]]]]]. destruct (Hpq Ep) as [_ [_ [_ [Z1 _]]]]. rewrite Z0, Z1. intros _ _.
+        split; [intro H; discriminate H|intros [H|H]; [discriminate H|]]. cbn in H. destruct H as [H|[]]. discriminate H.
+      + rewrite (Ho u Nu). pose proof (e_wex _ _ _ R u Hu) as A. rewrite (esp_pps _ A). apply (e_panic _ _ _ R u Hu).
+    - intros u q' m0 a b E. destruct (Nat.eq_dec u u0) as [->|Nu].
+      + exfalso. unfold u0 in E. rewrite Hnc, Hnf in E. ppcase Ep; rewrite Ep in E; [|destruct a; discriminate E].
+        destruct a as [|a0 [|a1 a]]; cbn in E; discriminate E.
+      + rewrite (Ho u Nu) in *. destruct (e_porder _ _ _ R u q' m0 a b E) as [A [B [C D]]]. split; [exact A|]. split; [apply esp_wkr; right; auto|auto].
+    - intros m0 q' ms b Hin. rewrite Mc in Hin. apply (e_ufterm _ _ _ R m0 q' ms b Hin).
+    - intros u Hu. apply esp_wkr in Hu. destruct Hu as [[-> Ep]|[Nu Hu]].
+      + left. exists x0. rewrite Tnew, Ep. unfold u0. rewrite Hnp. left. reflexivity.
+      + rewrite (Ho u Nu). destruct (e_wprog _ _ _ R u Hu) as [A|A]; [left; exact A|right; apply Pg; exact A].
+    - intros q' H. apply Pg. apply (e_exited _ _ _ R q' H).
+  Qed.
+End ESpawn.
